@@ -66,8 +66,21 @@ def seg_decode_stream(buf):
 
 
 class SimFuture(Future):
-    """concurrent.futures.Future whose blocking calls are virtual"""
+    """concurrent.futures.Future whose blocking calls are virtual.  Hashes by creation order so that
+    sets of futures (Session._initial_connect_futures) iterate deterministically, not by address."""
     _world = None
+    _counter = 0
+
+    def __init__(self):
+        Future.__init__(self)
+        SimFuture._counter += 1
+        self._serial = SimFuture._counter
+
+    def __hash__(self):
+        return self._serial
+
+    def __eq__(self, other):
+        return self is other
 
     def result(self, timeout=None):
         if not self.done() and self._world is not None:
@@ -78,6 +91,35 @@ class SimFuture(Future):
         if not self.done() and self._world is not None:
             self._world.block(self.done, timeout)
         return Future.exception(self, timeout=0 if not self.done() else None)
+
+
+class OrderedIdentitySet(object):
+    """insertion-ordered identity set standing in for Cluster.sessions (a WeakSet, whose iteration
+    order depends on memory addresses and would make multi-session histories irreproducible)"""
+
+    def __init__(self):
+        self._items = []
+
+    def add(self, x):
+        if not any(x is y for y in self._items):
+            self._items.append(x)
+
+    def discard(self, x):
+        self._items = [y for y in self._items if y is not x]
+
+    def remove(self, x):
+        if not any(x is y for y in self._items):
+            raise KeyError(x)
+        self.discard(x)
+
+    def __iter__(self):
+        return iter(list(self._items))
+
+    def __len__(self):
+        return len(self._items)
+
+    def __contains__(self, x):
+        return any(x is y for y in self._items)
 
 
 class SimExecutor(object):
@@ -578,6 +620,7 @@ class Sim(object):
 
     def __init__(self, tape=(), granularity="blocking", max_steps=200000, quiet_logs=True):
         self.world = World(tape=tape, granularity=granularity, max_steps=max_steps)
+        SimFuture._counter = 0
         self.patch = Patch()
         self.vtime = None
         self.net = None
@@ -648,6 +691,7 @@ class Sim(object):
                     connect_timeout=5, control_connection_timeout=2.0)
         opts.update(kw)
         cluster = SimCluster(contact_points=list(contact_points), **opts)
+        cluster.sessions = OrderedIdentitySet()
         self.clusters.append(cluster)
         return cluster
 
